@@ -203,6 +203,9 @@ pub struct Sut {
 	pub unread_files: usize, // flushed log files not fully read
 	pub dirty: usize,       // fully read files not yet cleaned
 	pub synced_len: BTreeMap<String, u64>, // log file -> bytes known synced
+	pub log_sizes: BTreeMap<String, u64>,  // last seen size of every log file
+	/// records appended since the last flush: (log file, end offset, is a transaction record)
+	pub appended: Vec<(String, u64, bool)>,
 	pub hist: Vec<Tx>,
 	pub n_enacted: usize,
 }
@@ -220,6 +223,8 @@ impl Sut {
 			unread_files: 0,
 			dirty: 0,
 			synced_len: Default::default(),
+			log_sizes: Default::default(),
+			appended: vec![],
 			hist: vec![],
 			n_enacted: 0,
 		}
@@ -241,7 +246,18 @@ impl Sut {
 			self.queued -= 1;
 			self.logged += 1;
 		}
+		self.note_appended(true);
 		Ok(())
+	}
+	/// Which log file grew since the last look: that is where the new record ends.
+	fn note_appended(&mut self, is_tx: bool) {
+		for (n, l) in self.log_files() {
+			let old = self.log_sizes.get(&n).copied().unwrap_or(0);
+			if l > old {
+				self.appended.push((n.clone(), l, is_tx));
+			}
+			self.log_sizes.insert(n, l);
+		}
 	}
 	fn log_files(&self) -> Vec<(String, u64)> {
 		let mut v = vec![];
@@ -265,6 +281,7 @@ impl Sut {
 				self.synced_len.insert(n, l);
 			}
 		}
+		self.appended.clear();
 		Ok(())
 	}
 	/// Model action `enactall`: enact every flushed record (one log file per call of the
@@ -298,7 +315,9 @@ impl Sut {
 		Ok(())
 	}
 	pub fn reindex(&mut self) -> Result<(), parity_db::Error> {
-		self.db().process_reindex()
+		let r = self.db().process_reindex();
+		self.note_appended(false);
+		r
 	}
 	pub fn get(&self, c: u8, k: &[u8]) -> Result<Option<Vec<u8>>, parity_db::Error> {
 		self.db().get(c, k)
@@ -315,6 +334,8 @@ impl Sut {
 		self.unread_files = 0;
 		self.dirty = 0;
 		self.synced_len.clear();
+		self.log_sizes.clear();
+		self.appended.clear();
 		self.n_enacted = self.hist.len();
 	}
 	pub fn reopen(&mut self) -> Result<(), parity_db::Error> {
@@ -684,8 +705,9 @@ fn crash_and_recover(
 	let img = fresh_dir(root, &format!("p1-{}-img{}", seed, rng.below(1 << 20)));
 	copy_dir(&sut.dir, &img);
 	let _ = std::fs::remove_file(img.join("lock"));
-	// cut unsynced log tails
+	// cut unsynced log tails; count how many unsynced transaction records stay complete
 	let mut cut = false;
+	let mut kept_len: BTreeMap<String, u64> = Default::default();
 	if rng.chance(2, 3) {
 		for e in std::fs::read_dir(&img).unwrap() {
 			let e = e.unwrap();
@@ -703,9 +725,22 @@ fn crash_and_recover(
 						let f = std::fs::OpenOptions::new().write(true).open(e.path()).unwrap();
 						f.set_len(keep).unwrap();
 						cut = true;
+						kept_len.insert(n, keep);
 					}
 				}
 			}
+		}
+	}
+	// records are replayed in order; the first incomplete one ends the replay
+	let mut surviving_unsynced = 0usize;
+	for (file, end, is_tx) in sut.appended.iter() {
+		let keep = kept_len.get(file).copied().unwrap_or(u64::MAX);
+		if *end <= keep {
+			if *is_tx {
+				surviving_unsynced += 1;
+			}
+		} else {
+			break
 		}
 	}
 	ctr.inc(if cut { "op.crash.cut_tail" } else { "op.crash.boundary" });
@@ -729,37 +764,38 @@ fn crash_and_recover(
 		},
 	};
 	sut.db = Some(db);
-	// which prefix did we recover to?  Several prefixes can be observationally equal; take
-	// the largest matching one that does not exceed what was ever published to the log.
-	let hi = std::cmp::min(sut_hi, prefix_states.len() - 1);
-	let mut found = None;
-	for m in (0..=hi).rev() {
+	// the recovered prefix is determined by the records that are complete in the image
+	let _ = sut_hi;
+	let m = synced_txs + surviving_unsynced;
+	if m >= prefix_states.len() {
+		t.oracle_fail(prop, &format!("harness mirror inconsistent: m={} states={}", m, prefix_states.len()));
+		return None
+	}
+	{
 		let o = &prefix_states[m];
-		let mut all = true;
-		'outer: for (c, ks) in keys.iter().enumerate() {
+		for (c, ks) in keys.iter().enumerate() {
 			for k in ks {
 				let got = sut.get(c as u8, k).ok().flatten();
-				if got != o.cols[c].get(k).map(|x| x.0.clone()) {
-					all = false;
-					break 'outer
+				let exp = o.cols[c].get(k).map(|x| x.0.clone());
+				if got != exp {
+					t.oracle_fail(
+						prop,
+						&format!(
+							"after crash recovery (expected prefix {} of {}, synced {}): col={} key={} expected={:?} observed={:?}",
+							m,
+							prefix_states.len() - 1,
+							synced_txs,
+							c,
+							hex(k),
+							exp.map(|v| vals.render(&v)),
+							got.map(|v| vals.render(&v))
+						),
+					);
+					t.op(&format!("p1 crashto {}", m), "not-a-prefix");
+					return None
 				}
 			}
 		}
-		if all {
-			found = Some(m);
-			break
-		}
-	}
-	let m = match found {
-		Some(m) => m,
-		None => {
-			t.oracle_fail(prop, &format!("recovered state is not a prefix (<= {}) of the committed transactions", hi));
-			t.op("p1 crashto 0", "not-a-prefix");
-			return None
-		},
-	};
-	if m < synced_txs {
-		t.oracle_fail(prop, &format!("recovered prefix {} lost synced transactions (synced={})", m, synced_txs));
 	}
 	t.op(&format!("p1 crashto {}", m), "ok");
 	sut.hist.truncate(m);
